@@ -4,6 +4,10 @@ import QR.Spec.Penalty
 import QR.Spec.MaskChoice
 import QR.Model.Segment
 import QR.Spec.Segmentation
+import QR.Model.Render
+import QR.Spec.Render
+import QR.Model.Release
+import QR.Spec.Release
 /-
 Line-protocol driver (native executable `qrdrv`, Mathlib-free).
 One request per line: `<op> <arg> ...` (whitespace separated); one reply per line.
@@ -63,6 +67,29 @@ def specRead (M : BMat) : String :=
   match Spec.read (symOfBMat M) with
   | .error e => "fail " ++ e.name
   | .ok r => s!"ok {r.version} {r.level.indicator} {r.mask} {if r.tailConformant then 1 else 0} {fmtPSegs r.segs} {fmtList r.dataCodewords}"
+
+def hexDigit (c : Char) : Option Nat :=
+  if '0' ≤ c ∧ c ≤ '9' then some (c.toNat - 48) else if 'a' ≤ c ∧ c ≤ 'f' then some (c.toNat - 87) else none
+
+def parseHexBytes : List Char → Option (List UInt8)
+  | [] => some []
+  | a :: b :: t => do pure (UInt8.ofNat ((← hexDigit a) * 16 + (← hexDigit b)) :: (← parseHexBytes t))
+  | _ => none
+
+/-- hex-encoded UTF-8 (`-` = empty) to a string -/
+def parseHexStr (s : String) : Option String :=
+  if s = "-" then some "" else do
+    let bs ← parseHexBytes s.toList
+    String.fromUTF8? (ByteArray.mk bs.toArray)
+
+def hexOfNat (n : Nat) : String := String.ofList [Nat.digitChar (n / 16), Nat.digitChar (n % 16)]
+def fmtHexStr (s : String) : String :=
+  if s.isEmpty then "-" else String.join (s.toUTF8.toList.map fun b => hexOfNat b.toNat)
+def fmtCodePoints (l : List Nat) : String := fmtHexStr (String.ofList (l.map Char.ofNat))
+def fmtMods (m : List (List Bool)) : String :=
+  if m.isEmpty then "-" else "/".intercalate (m.map fun row => String.ofList (row.map fun b => if b then '1' else '0'))
+def fmtOptMods (m : Option (List (List Bool))) : String :=
+  match m with | some m => "ok " ++ fmtMods m | none => "fail unreadable"
 
 def reply (r : R String) : String :=
   match r with
@@ -190,6 +217,46 @@ def handle (toks : List String) : Option String :=
         let v := Spec.segmentation n d ps
         let b (x : Bool) := if x then "1" else "0"
         pure s!"ok {b v.lossless} {b v.valid} {b v.thresholdZero} {b v.runsCarried} {b v.minLength}"
+  | ["getmatrix", b, m] => do let b ← parseNat b; let m ← parseBMat m; pure ("ok " ++ fmtMods (getMatrix m b))
+  | ["printascii", n, b, tty, inv, m] => do
+      let n ← parseNat n; let b ← parseNat b; let tty ← parseBool tty; let inv ← parseBool inv; let m ← parseBMat m
+      pure ("ok " ++ fmtCodePoints (printAscii m n b tty inv))
+  | ["printtty", n, m] => do let n ← parseNat n; let m ← parseBMat m; pure ("ok " ++ fmtCodePoints (printTty m n))
+  | ["pixelbox", b, box, r, c] => do
+      let b ← parseNat b; let box ← parseNat box; let r ← parseNat r; let c ← parseNat c
+      let ((x0, y0), (x1, y1)) := pixelBox b box r c
+      pure s!"ok {x0} {y0} {x1} {y1}"
+  | ["pypngrows", w, b, box, m] => do
+      let w ← parseNat w; let b ← parseNat b; let box ← parseNat box; let m ← parseBMat m
+      pure ("ok " ++ "/".intercalate ((pypngRows m w b box).map fun row => String.ofList (row.map fun x => if x = 0 then '0' else '1')))
+  | ["pilraster", w, b, box, m] => do
+      let w ← parseNat w; let b ← parseNat b; let box ← parseNat box; let m ← parseBMat m
+      pure ("ok " ++ fmtMods ((pilRaster m w b box).toList.map Array.toList))
+  | ["pilmode", f, bk] => do
+      let f := if f = "-" then none else some f
+      let bk := if bk = "-" then none else some bk
+      pure ("ok " ++ pilMode f bk)
+  | ["manpage", name, ver, date, page] => do
+      let name ← parseHexStr name; let ver ← parseHexStr ver; let date ← parseHexStr date; let page ← parseHexStr page
+      pure (match updateManpage name.toList ver.toList date.toList page.toList with
+        | none => "ok none" | some t => "ok some " ++ fmtHexStr (String.ofList t))
+  | ["spec.manpage", name, ver, date, page] => do
+      let name ← parseHexStr name; let ver ← parseHexStr ver; let date ← parseHexStr date; let page ← parseHexStr page
+      pure (match Spec.expectedManpage name.toList ver.toList date.toList page.toList with
+        | none => "ok none" | some t => "ok some " ++ fmtHexStr (String.ofList t))
+  | ["spec.frame", n, b, m] => do
+      let n ← parseNat n; let b ← parseNat b; let m ← parseBMat m
+      pure ("ok " ++ fmtMods (Spec.frame m n b))
+  | ["spec.raster", n, b, box, m] => do
+      let n ← parseNat n; let b ← parseNat b; let box ← parseNat box; let m ← parseBMat m
+      let size := (n + 2 * b) * box
+      pure ("ok " ++ fmtMods ((List.range size).map fun y => (List.range size).map fun x => Spec.rasterDark m n b box x y))
+  | ["spec.readascii", inv, t] => do
+      let inv ← parseBool inv; let t ← parseHexStr t
+      pure (fmtOptMods (Spec.readHalfBlocks inv (t.toList.map Char.toNat)))
+  | ["spec.readtty", t] => do
+      let t ← parseHexStr t
+      pure (fmtOptMods (Spec.readTty (t.toList.map Char.toNat)))
   | ["spec.penalty", m] => do let m ← parseBMat m; pure ("ok " ++ toString (Spec.penalty m))
   | ["spec.n1", m] => do let m ← parseBMat m; pure ("ok " ++ toString (Spec.N1 m m.length))
   | ["spec.n2", m] => do let m ← parseBMat m; pure ("ok " ++ toString (Spec.N2 m))
